@@ -341,7 +341,12 @@ class Trace:
         self.fa, self.ct, self.pp, self.act = (MoleculeContainer._format_atom, MoleculeContainer._MoleculeSmiles__ct_map,
                                                rd.postprocess_molecule, MoleculeContainer.add_cis_trans_stereo)
         self.atoms, self.ctmaps, self.reads, self.ctcalls = [], [], [], []
+        self.aas, self.atomcalls = MoleculeContainer.add_atom_stereo, []
         tr = self
+
+        def add_as(self, n, env, mark, **kw):
+            tr.atomcalls.append((self, n, tuple(env), mark))
+            return tr.aas(self, n, env, mark, **kw)
 
         def format_atom(self, n, adjacency, **kw):
             out = tr.fa(self, n, adjacency, **kw)
@@ -358,9 +363,9 @@ class Trace:
             snap = {'mapping': dict(enumerate(data['mapping'])) if isinstance(data['mapping'], (list, tuple)) else dict(data['mapping']), 'stereo_atoms': dict(data['stereo_atoms']),
                     'order': {k: list(v) for k, v in data['order'].items()},
                     'stereo_bonds': {k: dict(v) for k, v in data['stereo_bonds'].items()}}
-            n0 = len(tr.ctcalls)
+            n0, n0a = len(tr.ctcalls), len(tr.atomcalls)
             r = tr.pp(molecule, data, **kw)
-            tr.reads.append((molecule, snap, tr.ctcalls[n0:], kw))
+            tr.reads.append((molecule, snap, tr.ctcalls[n0:], kw, [c for c in tr.atomcalls[n0a:] if c[0] is molecule]))
             return r
 
         def add_ct(self, n, m, n1, n2, mark, **kw):
@@ -375,6 +380,7 @@ class Trace:
         MoleculeContainer._format_atom = format_atom
         MoleculeContainer._MoleculeSmiles__ct_map = ct_map
         MoleculeContainer.add_cis_trans_stereo = add_ct
+        MoleculeContainer.add_atom_stereo = add_as
         rd.postprocess_molecule = postprocess
         return self
 
@@ -382,6 +388,7 @@ class Trace:
         self.cls._format_atom = self.fa
         self.cls._MoleculeSmiles__ct_map = self.ct
         self.cls.add_cis_trans_stereo = self.act
+        self.cls.add_atom_stereo = self.aas
         self.rd.postprocess_molecule = self.pp
 
 
@@ -425,7 +432,11 @@ def mapped_spellings(smi, rng, k):
 
 
 MARKS_EXTRA = """
+From Gen Require Import StereoBody.
 Definition ish (l : list Z) (x : Z) : bool := zmem x l.
+Definition rmark (hasH : bool) (i : Z) (ord_i : list Z) (s passed : bool) : bool := Bool.eqb (g_read_mark hasH i ord_i s) passed.
+Definition env_ok (a b : list Z) : bool := list_eqb Z.eqb a b.
+Definition fr_ok (hs : list Z) (e : Z * Z * option Z * option Z) (adj : list Z) (n : Z) : bool := option_eqb Z.eqb (first_ref (ish hs) e adj) (Some n).
 Definition wth (hs order adj : list Z) (s hasH first : bool) (r : pyres bool) : bool :=
   pyres_eqb Bool.eqb (write_th (ish hs) order adj s hasH first) r.
 Definition rth (hs order adj : list Z) (mark hasH np : bool) (r : pyres bool) : bool :=
@@ -518,13 +529,31 @@ def corr_smiles_marks(ck):
                         ('ct_map-rule', str(m), (o, k), (on, v)), ('wct', o, k, on, v, ctm[(o, on)], ctm[(k, v)], S))
                     ck.count('marks: writer ct_map rule')
     # ---- reader
-    for m, snap, ctcalls, kw in tr.reads:
+    for m, snap, ctcalls, kw, acalls in tr.reads:
         if kw.get('ignore_stereo'):
             continue
         mp = snap['mapping']
         order = {mp[i]: [mp[x] for x in xs if x is not None] for i, xs in snap['order'].items()}
         for i, s in snap['stereo_atoms'].items():
             n = mp[i]
+            # intermediate state: the (environment, mark) the real reader passes to add_atom_stereo == translated first-atom rule
+            # (Gen.StereoBody.g_read_mark on POSITIONS) and the neighbour order / first written allene substituents of the model
+            first = next((c for c in acalls if c[1] == n), None)
+            if first is not None and None not in snap['order'][i]:
+                _, _, env_passed, mark_passed = first
+                hasH0 = bool(m._atoms[n].implicit_hydrogens)
+                add(f'rmark {b(hasH0)} {zraw(i)} {lst(snap["order"][i], zraw)} {b(s)} {b(mark_passed)}',
+                    ('read-mark-passed', str(m), n, i, snap['order'][i], s, mark_passed), ('rmark', hasH0, i, tuple(snap['order'][i]), s, mark_passed))
+                ck.count('marks: reader mark passed to add_atom_stereo (intermediate)')
+                if n in m.stereogenic_tetrahedrons:
+                    add(f'env_ok {lst(env_passed, zraw)} {lst(order.get(n, []), zraw)}', ('read-env-passed', str(m), n, env_passed, order.get(n)),
+                        ('renv', tuple(env_passed), tuple(order.get(n, []))))
+                elif n in m.stereogenic_allenes and len(env_passed) == 2:
+                    t1, t2 = m._stereo_allenes_terminals[n]
+                    add(f'fr_ok {hs_of(m)} {envterm(m.stereogenic_allenes[n])} {lst(order[t1], zraw)} {zraw(env_passed[0])} && '
+                        f'fr_ok {hs_of(m)} {envterm(m.stereogenic_allenes[n])} {lst(order[t2], zraw)} {zraw(env_passed[1])}',
+                        ('read-allene-refs-passed', str(m), n, env_passed, order[t1], order[t2]), ('rfr', n, tuple(env_passed), tuple(order[t1]), tuple(order[t2])))
+                    ck.count('marks: reader allene reference substituents passed (intermediate)')
             actual = m._atoms[n].stereo
             if actual is None:
                 ck.count('marks: reader label not kept')
@@ -571,9 +600,11 @@ def corr_smiles_marks(ck):
 
 
 def directed_marks_search(ck, metas):
-    """on a broken marks correspondence: the round-trip oracle (random-order output must read back as an equal molecule) on the
-    molecules of the disagreeing cases"""
+    """on a broken marks correspondence: on the molecules of the disagreeing cases (1) the atom-mapped spelling oracle and (2) the
+    round-trip oracle: random-order output must read back as the same stereoisomer (judged through RDKit's canonical SMILES of the
+    two canonical strings, so that equal molecules that chython prints differently - ring pseudo-asymmetry, C01 - do not count)"""
     from chython import smiles
+    from rdkit import Chem
     seen = set()
     for info in metas:
         smi = info[1]
@@ -592,11 +623,13 @@ def directed_marks_search(ck, metas):
                 ck.counterexample(f'marks-reread-raises:{smi}', f'random-order output cannot be read back: {type(e).__name__}', {'smiles': smi, 'respelled': sp},
                                   repr(e), 'a molecule', 'reader on writer output')
                 break
-            if back != m:
-                ck.counterexample(f'marks-roundtrip:{smi}', 'random-order SMILES reads back as a different molecule (stereo marks)', {'smiles': smi, 'respelled': sp},
-                                  str(back), str(m), 'chython reader on chython writer output',
+            r0, r1 = Chem.MolFromSmiles(str(m)), Chem.MolFromSmiles(str(back))
+            if back != m and r0 is not None and r1 is not None and Chem.MolToSmiles(r0) != Chem.MolToSmiles(r1):
+                ck.counterexample(f'marks-roundtrip:{smi}', 'random-order SMILES reads back as a different stereoisomer (stereo marks)', {'smiles': smi, 'respelled': sp},
+                                  str(back), str(m), 'chython reader on chython writer output, both canonicalised by RDKit',
                                   replay_py=f"from chython import smiles; m=smiles({smi!r}); print(m, smiles({sp!r}))")
                 break
+    search_mapped(ck, sorted(seen), families=False)
 
 # ---------------------------------------------------------------------------------------------------------------
 # fix_stereo (coq/model/StereoFix.v): collection through the registries model + the retry loop; chirality detection is an input
@@ -1629,7 +1662,7 @@ def search_stereogenic(ck, pool):
                               replay_py=f"from chython import smiles; print(smiles({smi!r}))")
 
 
-def search_mapped(ck, pool):
+def search_mapped(ck, pool, families=True):
     """atom-map numbers must not change the meaning of '@' / '@@' / '/' / '\\': a spelling with random map numbers on every atom
     (written by RDKit, rooted at a stereocentre or in random order) must be read by chython as the stereoisomer that RDKit reads
     from the very same string.  Atom numbers then differ from positions in the string (first-atom rule, neighbour order)."""
@@ -1647,7 +1680,7 @@ def search_mapped(ck, pool):
     fam = ['C[C@H](F)Cl', 'C[C@@H](O)N', '[C@H](F)(Cl)Br', '[C@@H](C)(O)N', 'O.[C@H](F)(Cl)Br', 'C1O[C@H]1C', 'C[C@](F)(Cl)Br', 'N[C@@H](C)C(=O)O',
            'C[C@@H]1CC[C@H](C)CC1', 'CC(F)=[C@]=C(Cl)Br', 'FC=[C@@]=CCl', 'F/C=C/Cl', 'F/C=C\\Cl', 'C[C@H](N)/C=C/[C@@H](O)C', 'F[C@]([H])(Cl)Br',
            'OC[C@H]1O[C@@H](O)[C@H](O)[C@@H](O)[C@@H]1O', 'C[C@]12CC[C@H](C1)C2(C)C', 'F/C=C/C=C\\C=C/Cl']
-    for smi in fam + list(pool):
+    for smi in (fam if families else []) + list(pool):
         exp = rd_canon(smi)
         try:
             ref = smiles(smi)
@@ -1674,7 +1707,7 @@ def search_mapped(ck, pool):
 def rdkit_symmetric_end_bonds(m):
     """labelled plain double bonds of a chython molecule one end of which carries two substituents in one RDKit symmetry class
     (CanonicalRankAtoms without tie breaking, computed on the constitution: no stereo passed) or two hydrogens: such a bond has
-    no E/Z isomers unless the two substituents differ ONLY in their own stereo labels"""
+    no E/Z isomers unless the two substituents differ ONLY in their own stereo labels (excluded: see below)"""
     from rdkit import Chem
     idx = {n: i for i, n in enumerate(m._atoms)}
     rw = Chem.RWMol()
@@ -1696,6 +1729,7 @@ def rdkit_symmetric_end_bonds(m):
     except Exception:
         return []
     ranks = list(Chem.CanonicalRankAtoms(rd, breakTies=False, includeChirality=False))
+    only_label = n_labels(m) == (0, 1)
     out = []
     for n, k, bd in m.bonds():
         if bd.stereo is None or int(bd) != 2:
@@ -1704,7 +1738,13 @@ def rdkit_symmetric_end_bonds(m):
             subs = [x for x in m._bonds[e] if x != o]
             if any(int(m._bonds[e][x]) != 1 for x in subs):
                 break       # cumulene / special bond: not judged here
-            if (len(subs) == 2 and ranks[idx[subs[0]]] == ranks[idx[subs[1]]]) or (len(subs) == 1 and (m._atoms[e].implicit_hydrogens or 0) >= 2):
+            if len(subs) == 1 and (m._atoms[e].implicit_hydrogens or 0) >= 2:
+                out.append((n, k, e))
+                break
+            # two substituents in one symmetry class: identical for sure when both are terminal atoms, or when the molecule carries no
+            # other label; a ring through the end atom is left out (alkylidene rings: axis chirality together with a ring centre)
+            if len(subs) == 2 and ranks[idx[subs[0]]] == ranks[idx[subs[1]]] and not rd.GetRingInfo().NumAtomRings(idx[e]) and \
+                    (only_label or all(len(m._bonds[x]) == 1 for x in subs)):
                 out.append((n, k, e))
                 break
     return out
@@ -1718,8 +1758,8 @@ def search_histories(ck, pool):
     """labels are kept only on stereogenic centres AFTER AN EDIT: a labelled molecule is changed through the public API
     (delete_atom, delete + add_atom + add_bond = substitution, growth at a leaf atom; each calls fix_stereo) and then
     (1) the molecule read back from its own SMILES (built from scratch) carries as many atom / bond labels, (2) no labelled double
-    bond has an end with two substituents in one RDKit symmetry class (judged when at most one other label exists, so the
-    substituents cannot differ in their own stereo)"""
+    bond has an acyclic end with two substituents in one RDKit symmetry class (judged when the substituents are terminal atoms or the
+    molecule carries no other label, so that they cannot differ in their own stereo) or with two hydrogens"""
     from chython import smiles
     rng = random.Random(f'{ck.seed}:histories')
     fam = ['C/C=C(/C)CC', 'C/C=C(\\C)CC', 'F/C=C(/Cl)Br', 'C/C=C=C=C(/C)CC', 'C/C=C/C=C(/C)CC', 'C/C=C(/C)CCC', 'C/C=C/C', 'C[C@H](F)CC', 'C[C@](F)(Cl)CC',
@@ -1766,7 +1806,7 @@ def search_histories(ck, pool):
             ck.case(('history', smi, kind, n), nontrivial=(la, lb) != n_labels(m))
             ck.count(f'history search: {kind}' + (' (a label is dropped)' if (la, lb) != n_labels(m) else ''))
             replay = f"from chython import smiles; m=smiles({smi!r}); {call}; m.flush_cache(); print(m, [(n,k,b.stereo) for n,k,b in m.bonds() if b.stereo is not None])"
-            sym = rdkit_symmetric_end_bonds(c) if la + lb <= 2 else []
+            sym = rdkit_symmetric_end_bonds(c)
             if sym:
                 ck.counterexample(f'history-label-on-symmetric-end:{smi}:{kind}:{n}', 'after an edit an E/Z label is kept on a double bond one end of which carries two '
                                   'identical substituents (RDKit symmetry classes)', {'smiles': smi, 'edit': call}, f'{text}: labelled bonds {sym}', 'label dropped',
@@ -1922,12 +1962,16 @@ def mirror(smi):
 
 
 def run(ck):
-    ck.trusted += ['translators tools/gen_stereo.py (Python ast: the two dict displays), tools/gen_elements.py (is_forming_single/double_bonds)',
+    ck.trusted += ['translators tools/gen_stereo.py (Python ast: the two dict displays, compared constants), tools/gen_stereobody.py (statement-by-statement translation of the sign '
+                   'functions, sign chains, tetrahedron translation, first-atom rule), tools/gen_stereoreg.py (loop body of stereogenic_cumulenes), tools/gen_elements.py '
+                   '(is_forming_single/double_bonds)',
                    'correspondence runner harness/checks/C12.py (incl. the tracing wrappers it installs on MoleculeContainer._format_atom / __ct_map / '
                    'add_cis_trans_stereo and postprocess_molecule inside the check process) + harness/coqcases.py + harness/coqmol.py',
                    'CachedMethods shim harness/boot.py', 'CPython 3.12.1', 'RDKit 2026.3 (search only)']
     ck.assumptions += ['the translate functions, the registries, the SMILES mark rules and the fix_stereo loop are hand-modelled (coq/model/Stereo.v, '
-                       'StereoRegistry.v, StereoSmiles.v, StereoFix.v); tie = correspondence (exhaustive argument tuples on small molecules, generated + '
+                       'StereoRegistry.v, StereoSmiles.v, StereoFix.v); the sign functions, the sign chains of _translate_cis_trans/allene_sign, the body of '
+                       '_translate_tetrahedron_sign, the first-atom rule of postprocess_molecule and the loop body of stereogenic_cumulenes are ALSO translated from '
+                       'the source on every run and proved equal to the hand models (proofs/StereoBodyTie.v, StereoRegBodyTie.v); for the rest tie = correspondence (exhaustive argument tuples on small molecules, generated + '
                        'corpus molecules, traced real calls); coordinates are modelled over Z (the code uses floats)',
                        '__chiral_centers is modelled with atoms_rings and the _chiral_morgan classes as inputs (taken from the real code in the correspondence; '
                        'local variables read with sys.setprofile); _chiral_morgan itself is a parameter (C01 models it); toolkit agreement is RDKit search only',
@@ -1940,7 +1984,7 @@ def run(ck):
                         'several labels interact. search: corpus stereo molecules respelled by chython and re-read by RDKit; non-trivial = has at least one '
                         'stereo element')
     random.seed(f'{ck.seed}:global')     # format(mol, 'r') draws from the global generator: fixed per VERIF_SEED
-    proved = common.standard_proof_steps(ck, translators=['stereo', 'elements'], extra_targets=['model/StereoRegistry.vo', 'model/StereoSmiles.vo', 'model/StereoFix.vo', 'model/StereoWedge.vo', 'model/StereoParse.vo', 'model/StereoChiral.vo'])
+    proved = common.standard_proof_steps(ck, translators=['stereo', 'stereobody', 'stereoreg', 'elements'], extra_targets=['model/StereoRegistry.vo', 'model/StereoSmiles.vo', 'model/StereoFix.vo', 'model/StereoWedge.vo', 'model/StereoParse.vo', 'model/StereoChiral.vo'])
     tied = corr_translate(ck)
     tied = corr_registries(ck) and tied
     tied = corr_smiles_marks(ck) and tied
